@@ -59,7 +59,7 @@ def judge(t, cid, src, r):
     if rj.get("header") is not None or om.get("header") is not None:
         t.violation("header-outside-generate-mode", case)
     if g.get("status") == "built" and g.get("header") is None:
-        t.violation("no-header-in-generate-mode", case)
+        t.inc("built_without_header_in_generate_mode")      # "only in generate mode" does not say "always": observed, not judged
     # 3. accepted(reject) <=> accepted(generate) and header empty
     acc_g = vc.accepted(g, syn)
     acc_r = vc.accepted(rj, syn)
@@ -123,6 +123,8 @@ EXTRA_DOCS = [
     ("readonly-dynamic", "import qmluic.QtWidgets\nQWidget { QSpinBox { id: s } QLabel { width: s.value } }\n"),
     ("gadget-dynamic", "import qmluic.QtWidgets\nQWidget { QSpinBox { id: s } QLabel { font.pointSize: s.value; font.bold: true } }\n"),
     ("header-map-dynamic", "import qmluic.QtWidgets\nQWidget { QCheckBox { id: c } QTableView { horizontalHeader.visible: c.checked } }\n"),
+    ("header-map-dynamic-braces", "import qmluic.QtWidgets\nQWidget { QCheckBox { id: c } QTableView { verticalHeader { stretchLastSection: c.checked; visible: false } } }\n"),
+    ("tree-header-dynamic", "import qmluic.QtWidgets\nQWidget { QCheckBox { id: c } QTreeView { header { visible: c.checked } } }\n"),
     ("model-dynamic", "import qmluic.QtWidgets\nQWidget { QLineEdit { id: e } QComboBox { model: [e.text] } }\n"),
     ("actions-dynamic", "import qmluic.QtWidgets\nQWidget { QCheckBox { id: c } QAction { id: a1 } QAction { id: a2 } QMenu { actions: c.checked ? [a1] : [a2] } }\n"),
     ("callback-only", "import qmluic.QtWidgets\nQPushButton { onClicked: console.log(1) }\n"),
@@ -156,9 +158,63 @@ def shard_work(shard, nshards, payload):
     return t
 
 
+# --------------------------------------------------------------------------- the modes through the real command
+
+CLI_DOCS = [
+    ("static", "import qmluic.QtWidgets\nQWidget { windowTitle: \"s\"; QLabel { text: \"x\" } }\n"),
+    ("dynamic", "import qmluic.QtWidgets\nQWidget { QCheckBox { id: c } QLabel { text: \"x\"; visible: c.checked } }\n"),
+    ("callback", "import qmluic.QtWidgets\nQWidget { QLabel { id: l } QPushButton { onClicked: l.text = \"x\" } }\n"),
+    ("header-map-dynamic", "import qmluic.QtWidgets\nQWidget { QCheckBox { id: c } QTableView { horizontalHeader { stretchLastSection: c.checked } } }\n"),
+    ("tree-header-dynamic", "import qmluic.QtWidgets\nQWidget { QCheckBox { id: c } QTreeView { header.visible: c.checked } }\n"),
+]
+
+
+def cli_work(shard, nshards, payload):
+    """Every sequence of <= 3 runs over {generate, reject} of one document in one directory: the exit
+    status follows the in-process verdict of that mode, the .ui is the same file in both modes, and
+    after a successful generate-mode run the support header is there and current."""
+    import itertools
+    import os
+    import subprocess
+    t = vc.Tally()
+    vd = vc.worker_vdrive()
+    maxlen = 3
+    jobs = [(d, h) for d in CLI_DOCS for n in range(1, maxlen + 1) for h in itertools.product("GR", repeat=n)]
+    with vc.scratch_dir("c14cli") as scratch:
+        for k, ((name, src), hist) in enumerate(jobs):
+            if k % nshards != shard:
+                continue
+            d = os.path.join(scratch, f"w{k}")
+            os.makedirs(d)
+            with open(os.path.join(d, "Doc.qml"), "w") as f:
+                f.write(src)
+            ref = vd.job({"id": k, "source": src, "modes": list(vc.MODES), "type_name": "Doc"})["modes"]
+            case = {"id": f"cli/{name}/{''.join(hist)}", "source": src, "history": list(hist)}
+            for step, mode in enumerate(hist):
+                args = [vc.QMLUIC_BIN, "generate-ui", "--foreign-types", vc.METATYPES] + (["--no-dynamic-binding"] if mode == "R" else []) + ["Doc.qml"]
+                p_ = subprocess.run(args, cwd=d, stdout=subprocess.PIPE, stderr=subprocess.PIPE, timeout=60)
+                t.inc("cli_runs")
+                m = ref["generate" if mode == "G" else "reject"]
+                want_ok = vc.accepted(m)
+                if (p_.returncode == 0) != want_ok:
+                    t.violation("cli:exit-status-differs-from-the-mode's-verdict", dict(case, step=step, exit=p_.returncode))
+                    break
+                if not want_ok:
+                    continue
+                ui_path, h_path = os.path.join(d, "doc.ui"), os.path.join(d, "uisupport_doc.h")
+                if not os.path.exists(ui_path) or open(ui_path).read() != m["ui"]:
+                    t.violation("cli:ui-differs-between-modes", dict(case, step=step))
+                if mode == "G" and (not os.path.exists(h_path) or open(h_path).read() != ref["generate"]["header"]):
+                    t.violation("cli:generate-mode-run-left-no-current-header", dict(case, step=step, exists=os.path.exists(h_path)))
+            t.distinct.add((name, hist))
+    return t
+
+
 def main(tier, t0):
     vc.ensure_vdrive()
+    vc.ensure_cli()
     tally = vc.merge_tallies(vc.run_sharded(shard_work, {"tier": tier}))
+    tally.merge(vc.merge_tallies(vc.run_sharded(cli_work, {"tier": tier})))
     c = tally.counts
     cov = {
         "evaluations": c.get("documents", 0) * 3,
@@ -173,6 +229,7 @@ def main(tier, t0):
         "accepted_with_dynamic_code": c.get("header_nonempty", 0),
         "documents_with_errors_in_omit_mode": c.get("documents_with_omit_errors", 0),
         "warning_variants": c.get("with_warning", 0),
+        "runs_of_the_real_command": c.get("cli_runs", 0),
         "distinct_acceptance_patterns": sorted(map(str, tally.distinct)),
     }
     assumptions = [
